@@ -132,6 +132,7 @@ let () =
                if res = [] then "none" else String.concat " " (List.map (fun succ -> if succ = [] then "-" else String.concat ";" (List.map string_of_space succ)) res)
            | "forced" ->
                if forced_b (override !net (space_of_string (a 1))) (space_of_string (a 2)) (space_of_string (a 3)) then "1" else "0"
+           | "nonegwalk" -> if no_neg_walk_b !net (space_of_string (a 1)) (nats_of_string (a 2)) then "1" else "0"
            | "redok" -> if nfvs_reduction_ok_b !net (space_of_string (a 1)) (spaces_of_string (a 2)) (nats_of_string (a 3)) then "1" else "0"
            | "heurret" ->
                let r = heuristic_retained !net (space_of_string (a 1)) (nats_of_string (a 3)) (spaces_of_string (a 2)) in
